@@ -7,7 +7,7 @@ use std::collections::hash_map::DefaultHasher;
 use std::hash::{Hash, Hasher};
 use std::time::Instant;
 
-pub const RULE: &str = "case = (encoding, predicate): each predicate is recomputed from the behaviour of the same build over a finite, completely enumerated space - all byte strings of length <= 2 through the decoder (UTF-16 output length, ASCII bytes -> ASCII scalars) and every scalar value through the encoder (unmappable?, one byte per mappable character?, ASCII -> same single byte; ASCII bytes / characters next to every kind of non-ASCII sequence / character of the encoding in the same buffer; for can_encode_everything every scalar also from UTF-16 into a destination of exactly the queried size) - and compared with is_ascii_compatible(), is_single_byte(), can_encode_everything(); output_encoding() == new_encoder().encoding() == the encoding encode() reports, idempotent; == and Hash agree with instance identity on all 40 x 40 pairs; for_label(name()) is the same instance. Non-trivial = every (encoding, predicate, witness sweep) counts; evaluations counts the conversions executed. The short-string space is finite and enumerated completely; in addition the ASCII / single-byte claims are re-measured on longer inputs (ASCII run of 0..=70 + each atom / alphabet character + an ASCII tail of digits and trail-range letters) pushed through output buffers shorter than the input, against the reference model of the Standard, because 'every byte string' includes those and the fast paths only engage there.";
+pub const RULE: &str = "case = (encoding, predicate): each predicate is recomputed from the behaviour of the same build over a finite, completely enumerated space - all byte strings of length <= 2 through the decoder (UTF-16 output length, ASCII bytes -> ASCII scalars) and every scalar value through the encoder (unmappable?, one byte per mappable character?, ASCII -> same single byte; ASCII bytes / characters next to every kind of non-ASCII sequence / character of the encoding in the same buffer; for can_encode_everything every scalar also from UTF-16 into a destination of exactly the queried size) - and compared with is_ascii_compatible(), is_single_byte(), can_encode_everything(); output_encoding() == new_encoder().encoding() == the encoding encode() reports, idempotent; == and Hash agree with instance identity on all 40 x 40 pairs; for_label(name()) is the same instance. Non-trivial = every (encoding, predicate, witness sweep) counts; evaluations counts the conversions executed. The short-string space is finite and enumerated completely; in addition the ASCII / single-byte claims are re-measured on longer inputs (ASCII run of 0..=70 + each atom / alphabet character + an ASCII tail of digits and trail-range letters) pushed through output buffers shorter than the input, because 'every byte string' includes those and the fast paths only engage there; compared are the ASCII scalars in order (the reference model says which input bytes are stand-alone ASCII), the number of code units for single-byte encodings, and for the encoder that the output begins with the ASCII run and ends with the ASCII tail - not how the non-ASCII sequence itself converts (C01/C03).";
 
 fn hash_of(e: &'static Encoding) -> u64 {
     let mut h = DefaultHasher::new();
@@ -185,7 +185,15 @@ fn check_encoding(enc: &'static Encoding, st: &mut Stats) -> Option<String> {
                         h.caps = vec![cap];
                         let o = drv.run(&h);
                         let got = if o.completed { o.scalars(sink) } else { None };
-                        if got.as_ref() != Some(&want) {
+                        // what the two predicates speak about: the ASCII scalars (in order) and the number of
+                        // code units; how the non-ASCII sequence itself decodes is C01's business
+                        let ascii_of = |v: &Vec<u32>| v.iter().cloned().filter(|c| *c < 0x80).collect::<Vec<u32>>();
+                        let units_of = |v: &Vec<u32>| v.iter().map(|c| if *c >= 0x10000 { 2 } else { 1 }).sum::<usize>();
+                        let same = match &got {
+                            Some(g) => ascii_of(g) == ascii_of(&want) && (!enc.is_single_byte() || units_of(g) == v.len()),
+                            None => false,
+                        };
+                        if !same {
                             let what = format!("decoding {} through a {}-unit {} buffer gives {:X?}, the Standard {:X?}", fw::hex(&v), cap, sink.name(), got, want);
                             if enc.is_single_byte() && got.as_ref().map(|g| g.len()) != Some(v.len()) {
                                 return Some(format!("is_single_byte() = true but {} bytes do not decode to {} code units: {}", v.len(), v.len(), what));
@@ -214,7 +222,11 @@ fn check_encoding(enc: &'static Encoding, st: &mut Stats) -> Option<String> {
                             let mut h = crate::drive_enc::EncHistory::simple(enc, src, true, &text);
                             h.caps = vec![cap];
                             let o = edrv.run(&h);
-                            if !o.completed || o.out != want {
+                            // the ASCII characters must come out as themselves: the output starts with the
+                            // ASCII run and ends with the ASCII tail (how U+x itself encodes is C03's business)
+                            let run_bytes: Vec<u8> = text[..l].iter().map(|c| *c as u8).collect();
+                            let ok = o.completed && o.out.starts_with(&run_bytes) && o.out.ends_with(digits) && (o.out.len() >= want.len().min(l + digits.len()));
+                            if !ok {
                                 return Some(format!("is_ascii_compatible() = true but ASCII characters around U+{:04X} do not encode to themselves: text [{}] through a {}-byte buffer gives {}, the Standard {}", x, fw::hex32(&text), cap, fw::hex(&o.out), fw::hex(&want)));
                             }
                         }
